@@ -404,7 +404,8 @@ def build_message(spec: dict, pol_override=None, with_headers: bool | None = Non
                 m[h] = objs(spec[k])
         m["Subject"] = spec["subject"]
         m["Date"] = instant(spec["date"])
-        m["Message-ID"] = spec["message_id"]
+        if spec["message_id"]:                           # "" = the message has no Message-ID header (RFC 5322 3.6.4: SHOULD)
+            m["Message-ID"] = spec["message_id"]
         for n, v in spec["hdr"].get("extra", []):
             m[n] = v
     plain, html = spec.get("plain"), spec.get("html")
@@ -515,7 +516,9 @@ def hand_header_block(spec: dict, eol: str) -> str:
         if spec.get(k):
             lines[hn] = fold(nm(hn), render_address_list(spec[k], h), eol, width, cont, colon)
     lines["Date"] = fold(nm("Date"), [render_date(spec["date"], spec.get("date_style", "std"))], eol, 998, cont, colon)
-    if h.get("mid_folded"):
+    if not spec["message_id"]:
+        pass
+    elif h.get("mid_folded"):
         lines["Message-ID"] = nm("Message-ID") + ":" + eol + " " + spec["message_id"] + eol
     else:
         lines["Message-ID"] = fold(nm("Message-ID"), [spec["message_id"]], eol, 998, cont, colon)
@@ -812,6 +815,9 @@ def random_spec(rng, tok, fx: dict, *, allow=None, depth: int = 0) -> dict:
     spec["message_id"] = rng.choice(["<{t}.{n}@mail.example.com>", "<{n}.{t}@[192.0.2.1]>", "<{t}${n}@Example.ORG>",
                                      "<{t}-{n}-{n}-{n}-{n}@very.long.host.name.example.com>"]).format(
         t=tok("i"), n=rng.randrange(10 ** 9))
+    if depth == 0 and allow.get("no_message_id", True) and rng.random() < 0.08:
+        spec["message_id"] = ""                          # no Message-ID header at all (a SHOULD, and EmailMessage does not add one)
+        feats.append("mid:absent")
     extra = []
     if rng.random() < 0.6:
         pool = [("Received", f"from relay.example.net by mx.example.com with ESMTP id {tok('x')}; Mon, 01 Jan 2001 00:00:00 +0000"),
@@ -969,7 +975,9 @@ def make_attachment(rng, tok, kind: str, fx: dict) -> dict:
     sample = rng.choice(SAMPLES[cs])
     fname_tok = tok("f")
     fname_tok = rng.choice([fname_tok] * 4 + [f"{fname_tok} {rng.choice(SAMPLES['utf-8'])}", f"{fname_tok}-" + "long-name-" * 9,
-                                              f'{fname_tok} "q"; x', f"{fname_tok} {rng.choice(SAMPLES['utf-8'])} " + "läng-" * 14])
+                                              f'{fname_tok} "q"; x', f"{fname_tok} {rng.choice(SAMPLES['utf-8'])} " + "läng-" * 14,
+                                              # legitimate but unusual: path separators in the name, names beyond 240 bytes
+                                              f"Income/Expenses {fname_tok}", f"C:\\Users\\{fname_tok}\\report", f"{fname_tok} " + "ausführlich-benannt-" * 14])
     if kind in ("txt", "txt-8bit", "txt-qp"):
         lines = [f"{tok('a')} {sample}", "From attachment line " + tok("a"), ">From the minutes of " + tok("a"), ">>From deeper in the thread " + tok("a"), tok("a")]
         data = ("\n".join(lines) + "\n").encode("utf-8")
@@ -1118,7 +1126,8 @@ def header_probe(spec: dict) -> bytes:
         return hand_header_block(dict(spec, to=[], cc=[], bcc=[], reply_to=[]), pol.linesep).encode("ascii") + pol.linesep.encode("ascii")
     m = EmailMessage(policy=pol)
     m["Subject"] = spec["subject"]
-    m["Message-ID"] = spec["message_id"]
+    if spec["message_id"]:
+        m["Message-ID"] = spec["message_id"]
     return _flatten(m, pol)
 
 
